@@ -40,6 +40,45 @@ def _setitem():
     return gen, run
 
 
+@defop("set_axis_kw", "meta", kind="inplace", weight=0.5)
+def _set_axis_kw():
+    """set_axis(axis=d, name_=value): extra keywords are documented to be set on the axis like attributes."""
+    def gen(w, rng):
+        a_id = pick_arr(w, rng, lambda a: a.ndim > 0)
+        if a_id is None:
+            return None
+        a = w.arr(a_id)
+        nm, ref = pick_dim(w, rng, a)
+        name, value = rng.choice([["tol", 0.5], ["tol", 2], ["long_name", "lbl"], ["units", "m"], ["axis_note", 7]])
+        return {"a": a_id, "axis": ref, "dim": nm, "name": name, "value": value, "via": rng.choice(["array", "axis"])}
+
+    def run(w, s):
+        from dimarray.core.axes import MultiAxis
+        a = w.arr(s["a"])
+        ax = a.axes[s["axis"]]
+        if isinstance(ax, MultiAxis):
+            raise Skip("grouped axis")
+        before = dict(ax.attrs)
+        if s["via"] == "array":
+            a.set_axis(axis=s["axis"], **{s["name"]: s["value"]})
+        else:
+            ax.set(**{s["name"]: s["value"]})
+        ax = a.axes[s["axis"]]
+        if "C16" in w.props:
+            if s["name"] == "tol":
+                if "tol" in ax.attrs or ax.tol != s["value"]:
+                    raise Violation("C16", "route_set", "set_axis(tol=%r): a class member must be set, not stored as metadata: tol=%r attrs %r" % (
+                        s["value"], ax.tol, dict(ax.attrs)))
+            else:
+                want = dict(before)
+                want[s["name"]] = s["value"]
+                if V.attrs_key(ax.attrs) != V.attrs_key(want):
+                    raise Violation("C16", "route_set", "set_axis(%s=%r): axis metadata %r, expected %r" % (s["name"], s["value"], dict(ax.attrs), want))
+            w.count("c16:set_axis_kwargs_routed")
+        return None
+    return gen, run
+
+
 @defop("fill_inplace", "assign", kind="inplace", weight=0.5)
 def _fill_inplace():
     def gen(w, rng):
